@@ -83,19 +83,20 @@ type Drv struct {
 	// NoProbe disables in-callback probes.
 	NoProbe bool
 
-	opIdx       int
-	cur         *Exp
-	newAssigned int
-	fired       []firedRec
-	touched     map[int]bool // observer slots (un)registered during the current op
-	unregDuring []int
-	cbSeen      map[EID]int
-	inBatchCb   bool
-	Viol        []Violation
-	Stat        *Stats
-	viaNewCtr   int
-	transient   typed.TFilter
-	exhausted   []int
+	opIdx           int
+	cur             *Exp
+	newAssigned     int
+	fired           []firedRec
+	touched         map[int]bool // observer slots (un)registered during the current op
+	unregDuring     []int
+	cbSeen          map[EID]int
+	inBatchCb       bool
+	Viol            []Violation
+	Stat            *Stats
+	viaNewCtr       int
+	triedStructural bool
+	transient       typed.TFilter
+	exhausted       []int
 }
 
 // Stats are measured coverage counters.
